@@ -1,17 +1,22 @@
 (* C20: proofs about the interleaving model (Model/Conc.v).
-   Main results
-     own_step / other_step   the invariant "what thread i has emitted so far, followed by the
-                             static reading of what is left of its program under the current
-                             mode, is the static reading of its whole program" is kept by
-                             every step of every thread, provided thread i is straight-line
-                             or no other thread can write the mode cell
-     guarded_generic         hence: any number of threads, any schedule
-     solo_generic            a thread running alone produces its static reading
-     readers_independent     nobody writes the mode cell -> every thread = its solo result
-     sem_prog                the static reading of every entry point = Spec.spec_out
-     scenario_guarded        entry points, outside Known_C20_mode_write
-     run_coarse_is_run       the yield-site granularity of the harness is a special case
-     refutations             inside the class the property fails (vm_compute witnesses) *)
+
+   The invariant [on_path]: what thread i has emitted so far, followed by the static reading of
+   what is left of its program under the mode it currently sees, is the static reading of its
+   whole program; and everything it has written to stand-off files is member content.
+     own_step            kept by every step of thread i itself (both designs)
+     step_other_local    mode confined to the thread (sh = false): kept by every step of every
+                         other thread, unconditionally
+     step_other_shared   shared mode cell (sh = true): kept provided thread i is straight-line or
+                         no other thread can write the cell
+   Consequences
+     independent_generic   sh = false: any programs, any number of threads, any schedule
+     solo_generic          a thread running alone produces its static reading (both designs)
+     alone_or_not          sh = false: result under any schedule = result alone
+     sem_prog              the static reading of every entry point = Spec.spec_out
+     scenario_independent  entry points, any store, any schedule: the property, unguarded
+     run_coarse_is_run     the yield-site granularity of the harness is a special case
+     shared_guarded, shared_readers_independent, shared_refuted_...
+                           the design before fix 5f67dd0: guarded statement and the witnesses *)
 From Coq Require Import List Arith Bool Lia.
 Import ListNotations.
 From Stam Require Import Model.Conc Spec.ConcSpec.
@@ -173,69 +178,82 @@ Proof.
               | rewrite E; eauto ] end.
 Qed.
 
-(* ---------- one step of thread i itself ---------- *)
-Lemma own_step : forall m fl t o mm m1 fl1 t1,
-  sem m (stk t) = Some (o, mm) -> dead t = false ->
-  step1 m fl t = (m1, fl1, t1) ->
-  (exists o1 mm1, sem m1 (stk t1) = Some (o1, mm1) /\ out t1 ++ o1 = out t ++ o)
-  /\ dead t1 = false
+(* ---------- one step of thread i itself (both designs) ---------- *)
+Lemma files_ok_snoc : forall t f x k md' ou de,
+  files_ok t -> x = t_inline f -> files_ok (mkT k md' ou (fout t ++ [(f, x)]) de).
+Proof.
+  intros t f x k md' ou de H ->. unfold files_ok in *. cbn [fout].
+  apply Forall_app. split; [exact H|]. constructor; [reflexivity|constructor].
+Qed.
+
+Ltac straight_tail :=
+  cbn [straight forallb]; let S := fresh "S" in intros S; apply andb_true_iff in S; tauto.
+Ltac no_straight := cbn [straight forallb straight_cmd andb]; discriminate.
+
+Lemma own_step : forall sh m fl t o mm m1 fl1 t1,
+  sem (cur_mode sh m t) (stk t) = Some (o, mm) -> dead t = false -> files_ok t ->
+  step1 sh m fl t = (m1, fl1, t1) ->
+  (exists o1 mm1, sem (cur_mode sh m1 t1) (stk t1) = Some (o1, mm1) /\ out t1 ++ o1 = out t ++ o)
+  /\ dead t1 = false /\ files_ok t1
   /\ (straight (stk t) = true -> straight (stk t1) = true)
   /\ le_flags fl1 fl.
 Proof.
-  intros m fl t o mm m1 fl1 t1 Hs Hd Hst. unfold step1 in Hst.
-  destruct t as [s ou fo de]; cbn [stk out fout dead] in *. subst de.
+  intros sh m fl t o mm m1 fl1 t1 Hs Hd Hf Hst. unfold step1 in Hst.
+  destruct t as [s tm ou fo de]; cbn [stk tmd out fout dead] in *. subst de.
+  assert (Hf0 : forall k' tm' ou', files_ok (mkT k' tm' ou' fo false)) by (intros; exact Hf).
+  assert (Hcm : forall m' k' ou' fo', cur_mode sh m' (mkT k' tm ou' fo' false) = cur_mode sh m' (mkT s tm ou fo false))
+    by (intros; destruct sh; reflexivity).
   destruct s as [|c k].
-  - injection Hst as <- <- <-. cbn [stk out dead]. repeat split; eauto using le_flags_refl.
+  - injection Hst as <- <- <-. cbn [stk out dead]. split; [eauto|]. repeat split; auto using le_flags_refl.
   - cbn [sem] in Hs.
-    destruct c; injection Hst as <- <- <-; cbn [stk out dead].
-    + (* Yield *) cbn [sem_cmd] in Hs.
-      destruct (sem m k) as [[o2 m2]|] eqn:E; [|discriminate]. injection Hs as <- <-.
-      repeat split; eauto using le_flags_refl.
-      all: try (cbn [straight forallb]; intros S; apply andb_true_iff in S; tauto).
-    + (* Emit *) cbn [sem_cmd] in Hs.
-      destruct (sem m k) as [[o2 m2]|] eqn:E; [|discriminate]. injection Hs as <- <-.
-      repeat split; eauto using le_flags_refl.
-      * exists o2, m2. split; [reflexivity|]. now rewrite <- app_assoc.
-      all: try (cbn [straight forallb]; intros S; apply andb_true_iff in S; tauto).
-    + (* FEmit *) cbn [sem_cmd] in Hs.
-      destruct (sem m k) as [[o2 m2]|] eqn:E; [|discriminate]. injection Hs as <- <-.
-      repeat split; eauto using le_flags_refl.
-      all: try (cbn [straight forallb]; intros S; apply andb_true_iff in S; tauto).
+    destruct c.
+    + (* Yield *) injection Hst as <- <- <-. cbn [sem_cmd] in Hs. cbn [stk out dead].
+      destruct (sem _ k) as [[o2 m2]|] eqn:E in Hs; [|discriminate]. injection Hs as <- <-.
+      split; [exists o2, m2; rewrite Hcm; auto|].
+      repeat split; auto using le_flags_refl. all: try straight_tail.
+    + (* Emit *) injection Hst as <- <- <-. cbn [sem_cmd] in Hs. cbn [stk out dead].
+      destruct (sem _ k) as [[o2 m2]|] eqn:E in Hs; [|discriminate]. injection Hs as <- <-.
+      split; [exists o2, m2; rewrite Hcm; split; [exact E | now rewrite <- app_assoc]|].
+      repeat split; auto using le_flags_refl. all: try straight_tail.
+    + (* FEmit *) injection Hst as <- <- <-. cbn [sem_cmd] in Hs. cbn [stk out dead].
+      destruct (Nat.eqb t (t_inline f)) eqn:Et; [|discriminate]. apply Nat.eqb_eq in Et.
+      destruct (sem _ k) as [[o2 m2]|] eqn:E in Hs; [|discriminate]. injection Hs as <- <-.
+      split; [exists o2, m2; rewrite Hcm; auto|].
+      split; [reflexivity|]. split; [apply (files_ok_snoc (mkT (FEmit f t :: k) tm ou fo false)); auto|].
+      split; [no_straight | apply le_flags_refl].
     + (* SetMode *) cbn [sem_cmd] in Hs.
-      destruct (sem m0 k) as [[o2 m2]|] eqn:E; [|discriminate]. injection Hs as <- <-.
-      repeat split; eauto using le_flags_refl.
-      all: try (cbn [straight forallb]; intros S; apply andb_true_iff in S; tauto).
-    + (* IfMode *)
+      destruct (sem m0 k) as [[o2 m2]|] eqn:E in Hs; [|discriminate]. injection Hs as <- <-.
+      destruct sh; injection Hst as <- <- <-; cbn [stk out dead cur_mode tmd];
+        (split; [exists o2, m2; auto|]; repeat split; auto using le_flags_refl; try straight_tail).
+    + (* IfMode *) injection Hst as <- <- <-. cbn [stk out dead].
       rewrite sem_cmd_IfMode in Hs.
-      destruct (sem m (branch m a n)) as [[oa ma]|] eqn:Ea; [|discriminate].
+      destruct (sem _ (branch _ a n)) as [[oa ma]|] eqn:Ea in Hs; [|discriminate].
       destruct (sem ma k) as [[o2 m2]|] eqn:E; [|discriminate]. injection Hs as <- <-.
-      repeat split; eauto using le_flags_refl.
-      * exists (oa ++ o2), m2. rewrite sem_app, Ea, E. auto.
-      * cbn [straight forallb straight_cmd andb]. discriminate.
-    + (* IfChanged *)
+      split; [exists (oa ++ o2), m2; rewrite Hcm; split; [rewrite sem_app, Ea, E; reflexivity | reflexivity]|].
+      repeat split; auto using le_flags_refl. all: try no_straight.
+    + (* IfChanged *) injection Hst as <- <- <-. cbn [stk out dead].
       rewrite sem_cmd_IfChanged in Hs.
-      destruct (sem m body) as [[[|x ob] mb]|] eqn:Eb; try discriminate.
-      destruct (mode_eqb mb m) eqn:Em; [|discriminate]. apply mode_eqb_eq in Em. subst mb.
-      destruct (sem m k) as [[o2 m2]|] eqn:E; [|discriminate]. injection Hs as <- <-.
-      repeat split; eauto using le_flags_refl.
-      * exists o2, m2. split; [|reflexivity].
-        destruct (flag i fl); [rewrite sem_app, Eb, E; reflexivity | exact E].
-      * cbn [straight forallb straight_cmd andb]. discriminate.
-    + (* ClearChanged *) cbn [sem_cmd] in Hs.
-      destruct (sem m k) as [[o2 m2]|] eqn:E; [|discriminate]. injection Hs as <- <-.
-      repeat split; eauto using le_flags_clear.
-      all: try (cbn [straight forallb]; intros S; apply andb_true_iff in S; tauto).
+      destruct (sem _ body) as [[[|x ob] mb]|] eqn:Eb in Hs; try discriminate.
+      destruct (mode_eqb mb _) eqn:Em in Hs; [|discriminate]. apply mode_eqb_eq in Em. subst mb.
+      destruct (sem _ k) as [[o2 m2]|] eqn:E in Hs; [|discriminate]. injection Hs as <- <-.
+      split; [exists o2, m2; rewrite Hcm; split; [|reflexivity];
+              destruct (flag i fl); [rewrite sem_app, Eb, E; reflexivity | exact E]|].
+      repeat split; auto using le_flags_refl. all: try no_straight.
+    + (* ClearChanged *) injection Hst as <- <- <-. cbn [sem_cmd] in Hs. cbn [stk out dead].
+      destruct (sem _ k) as [[o2 m2]|] eqn:E in Hs; [|discriminate]. injection Hs as <- <-.
+      split; [exists o2, m2; rewrite Hcm; auto|].
+      repeat split; auto using le_flags_clear. all: try straight_tail.
     + (* Abort *) cbn [sem_cmd] in Hs. discriminate.
 Qed.
 
-(* ---------- one step of a thread that cannot write the mode cell ---------- *)
+(* ---------- shared cell: one step of a thread that cannot write it ---------- *)
 Lemma nw_step1 : forall c0 m fl t m1 fl1 t1,
   le_flags fl c0 -> nw c0 (stk t) = true ->
-  step1 m fl t = (m1, fl1, t1) ->
+  step1 true m fl t = (m1, fl1, t1) ->
   m1 = m /\ nw c0 (stk t1) = true.
 Proof.
   intros c0 m fl t m1 fl1 t1 Hle Hn Hst. unfold step1 in Hst.
-  destruct t as [s ou fo de]; cbn [stk out fout dead] in *.
+  destruct t as [s tm ou fo de]; cbn [stk tmd out fout dead cur_mode] in *.
   destruct s as [|c k].
   - injection Hst as <- <- <-. auto.
   - rewrite nw_cons in Hn. apply andb_true_iff in Hn as [Hc Hk].
@@ -248,62 +266,158 @@ Proof.
       rewrite (Hle i F) in Hc. now rewrite nw_app, Hc, Hk.
 Qed.
 
-Lemma step1_flags : forall m fl t m1 fl1 t1, step1 m fl t = (m1, fl1, t1) -> le_flags fl1 fl.
+Lemma step1_flags : forall sh m fl t m1 fl1 t1, step1 sh m fl t = (m1, fl1, t1) -> le_flags fl1 fl.
 Proof.
-  intros m fl t m1 fl1 t1 H. unfold step1 in H.
+  intros sh m fl t m1 fl1 t1 H. unfold step1 in H.
   destruct (stk t) as [|c k]; [injection H as <- <- <-; apply le_flags_refl|].
-  destruct c; injection H as <- <- <-; auto using le_flags_refl, le_flags_clear.
+  destruct c; try (injection H as <- <- <-; auto using le_flags_refl, le_flags_clear).
+  destruct sh; injection H as <- <- <-; apply le_flags_refl.
 Qed.
 
 (* ---------- the invariant ---------- *)
-(* thread i is on its static path: emitted ++ reading of the rest = total *)
-Definition on_path (i : nat) (total : list tok) (st : state) : Prop :=
-  exists t o' m', nth_error (thr st) i = Some t /\ sem (md st) (stk t) = Some (o', m')
-                  /\ out t ++ o' = total /\ dead t = false.
+Definition on_path (sh : bool) (i : nat) (total : list tok) (st : state) : Prop :=
+  exists t o' m', nth_error (thr st) i = Some t
+                  /\ sem (cur_mode sh (md st) t) (stk t) = Some (o', m')
+                  /\ out t ++ o' = total /\ dead t = false /\ files_ok t.
 
-(* why nobody can push thread i off its static path *)
+Lemma step_own_inv : forall sh i total st,
+  on_path sh i total st -> on_path sh i total (step sh i st).
+Proof.
+  intros sh i total st (t & o' & m' & Hn & Hs & Ho & Hd & Hf).
+  unfold step. rewrite Hn.
+  destruct (step1 sh (md st) (flags st) t) as [[m1 fl1] t1] eqn:E.
+  destruct (own_step _ _ _ _ _ _ _ _ _ Hs Hd Hf E) as ((o1 & mm1 & Hs1 & Ho1) & Hd1 & Hf1 & _ & _).
+  exists t1, o1, mm1. cbn [md thr]. repeat split; auto.
+  - eapply nth_error_upd_eq; eauto.
+  - congruence.
+Qed.
+
+(* mode confined to the thread: nobody else matters *)
+Lemma step_other_local : forall i j total st,
+  j <> i -> on_path false i total st -> on_path false i total (step false j st).
+Proof.
+  intros i j total st Hji (t & o' & m' & Hn & Hs & Ho & Hd & Hf).
+  unfold step. destruct (nth_error (thr st) j) as [tj|] eqn:Hnj.
+  2:{ exists t, o', m'. auto. }
+  destruct (step1 false (md st) (flags st) tj) as [[m1 fl1] t1] eqn:E.
+  exists t, o', m'. cbn [md thr cur_mode] in *. repeat split; auto.
+  rewrite nth_error_upd_neq; auto.
+Qed.
+
+Lemma run_inv_local : forall i total sched st,
+  on_path false i total st -> on_path false i total (run false sched st).
+Proof.
+  intros i total sched. induction sched as [|j sched IH]; intros st Hp; cbn [run fold_left]; [exact Hp|].
+  apply IH. destruct (Nat.eq_dec j i) as [->|Hji].
+  - apply step_own_inv; auto.
+  - apply step_other_local; auto.
+Qed.
+
+Lemma run_solo_inv : forall sh i total n st,
+  on_path sh i total st -> on_path sh i total (run sh (repeat i n) st).
+Proof.
+  intros sh i total n. induction n as [|n IH]; intros st Hp; cbn [repeat run fold_left]; [exact Hp|].
+  apply IH. apply step_own_inv; auto.
+Qed.
+
+Lemma on_path_finished : forall sh i total st,
+  on_path sh i total st ->
+  exists t, nth_error (thr st) i = Some t /\ dead t = false /\ files_ok t
+            /\ (finished t = true -> out t = total)
+            /\ exists rest, out t ++ rest = total.
+Proof.
+  intros sh i total st (t & o' & m' & Hn & Hs & Ho & Hd & Hf). exists t. repeat split; auto.
+  - unfold finished. destruct (stk t); [|discriminate]. intros _. cbn in Hs. injection Hs as <- <-.
+    now rewrite app_nil_r in Ho.
+  - eauto.
+Qed.
+
+Lemma on_path_start : forall sh i st t o m1,
+  nth_error (thr st) i = Some t -> dead t = false -> out t = [] -> fout t = [] ->
+  sem (cur_mode sh (md st) t) (stk t) = Some (o, m1) -> on_path sh i o st.
+Proof.
+  intros sh i st t o m1 Hn Hd Ho Hf Hs. exists t, o, m1. rewrite Ho. repeat split; auto.
+  unfold files_ok. rewrite Hf. constructor.
+Qed.
+
+(* ---------- the generic theorems ---------- *)
+(* mode confined to the thread: any programs, any number of threads, any schedule *)
+Theorem independent_generic : forall i sched st t o m1,
+  nth_error (thr st) i = Some t -> dead t = false -> out t = [] -> fout t = [] ->
+  sem (tmd t) (stk t) = Some (o, m1) ->
+  exists t', nth_error (thr (run false sched st)) i = Some t' /\ dead t' = false /\ files_ok t'
+             /\ (finished t' = true -> out t' = o)
+             /\ exists rest, out t' ++ rest = o.
+Proof.
+  intros i sched st t o m1 Hn Hd Ho Hf Hs.
+  apply (on_path_finished false). apply run_inv_local. eapply on_path_start; eauto.
+Qed.
+
+Theorem solo_generic : forall sh i n st t o m1,
+  nth_error (thr st) i = Some t -> dead t = false -> out t = [] -> fout t = [] ->
+  sem (cur_mode sh (md st) t) (stk t) = Some (o, m1) ->
+  exists t', nth_error (thr (run sh (repeat i n) st)) i = Some t' /\ dead t' = false /\ files_ok t'
+             /\ (finished t' = true -> out t' = o)
+             /\ exists rest, out t' ++ rest = o.
+Proof.
+  intros sh i n st t o m1 Hn Hd Ho Hf Hs.
+  apply (on_path_finished sh). apply run_solo_inv. eapply on_path_start; eauto.
+Qed.
+
+(* the statement of the property on the model: whatever the other threads are and however the
+   threads are scheduled, a thread finishes with exactly what it finishes with alone *)
+Theorem alone_or_not : forall i st t o m1,
+  nth_error (thr st) i = Some t -> dead t = false -> out t = [] -> fout t = [] ->
+  sem (tmd t) (stk t) = Some (o, m1) ->
+  forall sched n t1 t2,
+    nth_error (thr (run false sched st)) i = Some t1 -> finished t1 = true ->
+    nth_error (thr (run false (repeat i n) st)) i = Some t2 -> finished t2 = true ->
+    out t1 = out t2 /\ dead t1 = false.
+Proof.
+  intros i st t o m1 Hn Hd Ho Hf Hs sched n t1 t2 H1 F1 H2 F2.
+  destruct (independent_generic i sched st t o m1 Hn Hd Ho Hf Hs) as (t1' & E1 & D1 & _ & O1 & _).
+  destruct (solo_generic false i n st t o m1 Hn Hd Ho Hf Hs) as (t2' & E2 & D2 & _ & O2 & _).
+  rewrite H1 in E1. injection E1 as <-. rewrite H2 in E2. injection E2 as <-.
+  split; [rewrite O1, O2; auto | exact D1].
+Qed.
+
+(* ---------- shared cell (the design before fix 5f67dd0) ---------- *)
 Definition safe (c0 : list bool) (i : nat) (st : state) : Prop :=
   (exists t, nth_error (thr st) i = Some t /\ straight (stk t) = true)
   \/ (forall j tj, j <> i -> nth_error (thr st) j = Some tj -> nw c0 (stk tj) = true).
 
-Lemma step_own_inv : forall c0 i total st,
-  le_flags (flags st) c0 -> on_path i total st ->
-  le_flags (flags (step i st)) c0 /\ on_path i total (step i st)
-  /\ (safe c0 i st -> safe c0 i (step i st)).
+Lemma step_own_shared : forall c0 i total st,
+  le_flags (flags st) c0 -> on_path true i total st -> safe c0 i st ->
+  le_flags (flags (step true i st)) c0 /\ safe c0 i (step true i st).
 Proof.
-  intros c0 i total st Hle (t & o' & m' & Hn & Hs & Ho & Hd).
+  intros c0 i total st Hle (t & o' & m' & Hn & Hs & Ho & Hd & Hf) Hsafe.
   unfold step. rewrite Hn.
-  destruct (step1 (md st) (flags st) t) as [[m1 fl1] t1] eqn:E.
-  destruct (own_step _ _ _ _ _ _ _ _ Hs Hd E) as ((o1 & mm1 & Hs1 & Ho1) & Hd1 & Hst & Hfl).
-  cbn [flags md thr]. split; [eapply le_flags_trans; eauto|]. split.
-  - exists t1, o1, mm1. repeat split; auto.
-    + eapply nth_error_upd_eq; eauto.
-    + congruence.
-  - intros [(t0 & Hn0 & S0)|Hoth].
-    + left. exists t1. split; [eapply nth_error_upd_eq; eauto|]. apply Hst. congruence.
-    + right. intros j tj Hj Hnj. cbn [thr] in Hnj. rewrite nth_error_upd_neq in Hnj by congruence. eauto.
+  destruct (step1 true (md st) (flags st) t) as [[m1 fl1] t1] eqn:E.
+  destruct (own_step _ _ _ _ _ _ _ _ _ Hs Hd Hf E) as (_ & _ & _ & Hst & Hfl).
+  cbn [flags thr]. split; [eapply le_flags_trans; eauto|].
+  destruct Hsafe as [(t0 & Hn0 & S0)|Hoth].
+  - left. exists t1. split; [eapply nth_error_upd_eq; eauto|]. apply Hst. congruence.
+  - right. intros j tj Hj Hnj. cbn [thr] in Hnj. rewrite nth_error_upd_neq in Hnj by congruence. eauto.
 Qed.
 
-Lemma step_other_inv : forall c0 i j total st,
-  j <> i -> le_flags (flags st) c0 -> on_path i total st -> safe c0 i st ->
-  le_flags (flags (step j st)) c0 /\ on_path i total (step j st) /\ safe c0 i (step j st).
+Lemma step_other_shared : forall c0 i j total st,
+  j <> i -> le_flags (flags st) c0 -> on_path true i total st -> safe c0 i st ->
+  le_flags (flags (step true j st)) c0 /\ on_path true i total (step true j st) /\ safe c0 i (step true j st).
 Proof.
-  intros c0 i j total st Hji Hle (t & o' & m' & Hn & Hs & Ho & Hd) Hsafe.
+  intros c0 i j total st Hji Hle (t & o' & m' & Hn & Hs & Ho & Hd & Hf) Hsafe.
   unfold step. destruct (nth_error (thr st) j) as [tj|] eqn:Hnj.
   2:{ split; [auto|]. split; [exists t, o', m'; auto | exact Hsafe]. }
-  destruct (step1 (md st) (flags st) tj) as [[m1 fl1] t1] eqn:E.
-  cbn [flags md thr].
+  destruct (step1 true (md st) (flags st) tj) as [[m1 fl1] t1] eqn:E.
+  cbn [flags md thr cur_mode] in *.
   assert (Hni : nth_error (upd j t1 (thr st)) i = Some t) by (rewrite nth_error_upd_neq; auto).
   split; [eapply le_flags_trans; [eapply step1_flags; eauto | auto]|].
   destruct Hsafe as [(t0 & Hn0 & S0)|Hoth].
-  - (* thread i is straight-line: the mode it runs under is irrelevant *)
-    assert (t0 = t) by congruence. subst t0.
+  - assert (t0 = t) by congruence. subst t0.
     destruct (sem_straight _ _ _ _ S0 Hs m1) as (mm2 & Hs2).
     split.
     + exists t, o', mm2. auto.
     + left. exists t. auto.
-  - (* thread j cannot write the mode cell *)
-    destruct (nw_step1 c0 _ _ _ _ _ _ Hle (Hoth j tj Hji Hnj) E) as (-> & Hnw1).
+  - destruct (nw_step1 c0 _ _ _ _ _ _ Hle (Hoth j tj Hji Hnj) E) as (-> & Hnw1).
     split.
     + exists t, o', m'. auto.
     + right. intros k tk Hk Hnk. cbn [thr] in Hnk.
@@ -312,90 +426,61 @@ Proof.
       * rewrite nth_error_upd_neq in Hnk by congruence. eauto.
 Qed.
 
-Lemma run_inv : forall c0 i total sched st,
-  le_flags (flags st) c0 -> on_path i total st -> safe c0 i st ->
-  on_path i total (run sched st).
+Lemma run_inv_shared : forall c0 i total sched st,
+  le_flags (flags st) c0 -> on_path true i total st -> safe c0 i st ->
+  on_path true i total (run true sched st).
 Proof.
   intros c0 i total sched. induction sched as [|j sched IH]; intros st Hle Hp Hs; cbn [run fold_left].
   - exact Hp.
   - destruct (Nat.eq_dec j i) as [->|Hji].
-    + destruct (step_own_inv c0 i total st Hle Hp) as (H1 & H2 & H3). apply IH; auto.
-    + destruct (step_other_inv c0 i j total st Hji Hle Hp Hs) as (H1 & H2 & H3). apply IH; auto.
+    + destruct (step_own_shared c0 i total st Hle Hp Hs) as (H1 & H3).
+      apply IH; auto. apply step_own_inv; auto.
+    + destruct (step_other_shared c0 i j total st Hji Hle Hp Hs) as (H1 & H2 & H3). apply IH; auto.
 Qed.
 
-Lemma run_solo_inv : forall i total n st,
-  on_path i total st -> on_path i total (run (repeat i n) st).
-Proof.
-  intros i total n. induction n as [|n IH]; intros st Hp; cbn [repeat run fold_left]; [exact Hp|].
-  destruct (step_own_inv (flags st) i total st (le_flags_refl _) Hp) as (_ & H2 & _). apply IH; auto.
-Qed.
-
-Lemma on_path_finished : forall i total st,
-  on_path i total st ->
-  exists t, nth_error (thr st) i = Some t /\ dead t = false /\ (finished t = true -> out t = total)
-            /\ exists rest, out t ++ rest = total.
-Proof.
-  intros i total st (t & o' & m' & Hn & Hs & Ho & Hd). exists t. repeat split; auto.
-  - unfold finished. destruct (stk t); [|discriminate]. intros _. cbn in Hs. injection Hs as <- <-.
-    now rewrite app_nil_r in Ho.
-  - eauto.
-Qed.
-
-(* ---------- the generic theorems: any programs, any number of threads, any schedule ---------- *)
-Theorem guarded_generic : forall c0 i sched st t o m1,
+Theorem shared_guarded : forall c0 i sched st t o m1,
   le_flags (flags st) c0 ->
-  nth_error (thr st) i = Some t -> dead t = false -> out t = [] ->
+  nth_error (thr st) i = Some t -> dead t = false -> out t = [] -> fout t = [] ->
   sem (md st) (stk t) = Some (o, m1) ->
-  Known_C20_mode_write c0 (thr st) i = false ->
-  exists t', nth_error (thr (run sched st)) i = Some t' /\ dead t' = false
+  Shared_mode_race c0 (thr st) i = false ->
+  exists t', nth_error (thr (run true sched st)) i = Some t' /\ dead t' = false /\ files_ok t'
              /\ (finished t' = true -> out t' = o)
              /\ exists rest, out t' ++ rest = o.
 Proof.
-  intros c0 i sched st t o m1 Hle Hn Hd Hout Hs Hk.
-  apply on_path_finished. eapply run_inv; eauto.
-  - exists t, o, m1. rewrite Hout. auto.
-  - unfold Known_C20_mode_write in Hk. rewrite Hn in Hk.
+  intros c0 i sched st t o m1 Hle Hn Hd Hout Hfo Hs Hk.
+  apply (on_path_finished true). eapply run_inv_shared; eauto.
+  - eapply on_path_start; eauto.
+  - unfold Shared_mode_race in Hk. rewrite Hn in Hk.
     apply andb_false_iff in Hk as [Hk|Hk].
     + left. exists t. split; auto. now apply negb_false_iff in Hk.
     + right. intros j tj Hj Hnj. apply negb_false_iff in Hk.
       rewrite forallb_forall in Hk. apply Hk. eapply others_in; eauto.
 Qed.
 
-Theorem solo_generic : forall i n st t o m1,
-  nth_error (thr st) i = Some t -> dead t = false -> out t = [] ->
-  sem (md st) (stk t) = Some (o, m1) ->
-  exists t', nth_error (thr (run (repeat i n) st)) i = Some t' /\ dead t' = false
-             /\ (finished t' = true -> out t' = o)
-             /\ exists rest, out t' ++ rest = o.
-Proof.
-  intros i n st t o m1 Hn Hd Hout Hs.
-  apply on_path_finished. apply run_solo_inv.
-  exists t, o, m1. rewrite Hout. auto.
-Qed.
-
-(* DESIGN: readers_independent.  If no thread program can write the mode cell then, for every
-   schedule, every thread that finishes holds exactly what it holds when it finishes alone. *)
-Theorem readers_independent : forall c0 st,
+(* DESIGN: readers_independent.  With the shared cell: if no thread program can write the mode
+   cell then, for every schedule, every thread that finishes holds what it holds when it
+   finishes alone. *)
+Theorem shared_readers_independent : forall c0 st,
   le_flags (flags st) c0 ->
   (forall j tj, nth_error (thr st) j = Some tj -> nw c0 (stk tj) = true) ->
-  forall i t o m1, nth_error (thr st) i = Some t -> dead t = false -> out t = [] ->
+  forall i t o m1, nth_error (thr st) i = Some t -> dead t = false -> out t = [] -> fout t = [] ->
   sem (md st) (stk t) = Some (o, m1) ->
   forall sched n t1 t2,
-    nth_error (thr (run sched st)) i = Some t1 -> finished t1 = true ->
-    nth_error (thr (run (repeat i n) st)) i = Some t2 -> finished t2 = true ->
+    nth_error (thr (run true sched st)) i = Some t1 -> finished t1 = true ->
+    nth_error (thr (run true (repeat i n) st)) i = Some t2 -> finished t2 = true ->
     out t1 = out t2 /\ dead t1 = false.
 Proof.
-  intros c0 st Hle Hall i t o m1 Hn Hd Hout Hs sched n t1 t2 H1 F1 H2 F2.
-  assert (Hk : Known_C20_mode_write c0 (thr st) i = false).
-  { unfold Known_C20_mode_write. rewrite Hn. apply andb_false_iff. right.
+  intros c0 st Hle Hall i t o m1 Hn Hd Hout Hfo Hs sched n t1 t2 H1 F1 H2 F2.
+  assert (Hk : Shared_mode_race c0 (thr st) i = false).
+  { unfold Shared_mode_race. rewrite Hn. apply andb_false_iff. right.
     apply negb_false_iff. apply forallb_forall. intros x Hx.
     clear - Hall Hx. revert i Hx Hall. generalize (thr st) as l.
     induction l as [|a l IH]; intros [|i] Hx Hall; cbn in Hx; try contradiction.
     - destruct (In_nth_error _ _ Hx) as [j Hj]. apply (Hall (S j)). exact Hj.
     - destruct Hx as [<-|Hx]; [apply (Hall 0); reflexivity|].
       apply (IH i Hx). intros j tj Hj. apply (Hall (S j)). exact Hj. }
-  destruct (guarded_generic c0 i sched st t o m1 Hle Hn Hd Hout Hs Hk) as (t1' & E1 & D1 & O1 & _).
-  destruct (solo_generic i n st t o m1 Hn Hd Hout Hs) as (t2' & E2 & D2 & O2 & _).
+  destruct (shared_guarded c0 i sched st t o m1 Hle Hn Hd Hout Hfo Hs Hk) as (t1' & E1 & D1 & _ & O1 & _).
+  destruct (solo_generic true i n st t o m1 Hn Hd Hout Hfo Hs) as (t2' & E2 & D2 & _ & O2 & _).
   rewrite H1 in E1. injection E1 as <-. rewrite H2 in E2. injection E2 as <-.
   split; [rewrite O1, O2; auto | exact D1].
 Qed.
@@ -404,27 +489,36 @@ Qed.
 Definition sink_out (sink : option nat) (t : tok) : list tok :=
   match sink with None => [t] | Some _ => [] end.
 
-Lemma sem_emit : forall m sink t, sem_cmd m (emit sink t) = Some (sink_out sink t, m).
-Proof. intros m [f|] t; reflexivity. Qed.
+Lemma sem_emit_string : forall m t, sem_cmd m (emit None t) = Some ([t], m).
+Proof. reflexivity. Qed.
 
-Lemma sem_member_noinc : forall fuel sink i k,
+Lemma sem_emit_file_inline : forall m f, sem_cmd m (emit (Some f) (t_inline f)) = Some ([], m).
+Proof. intros m f. cbn [emit sem_cmd]. now rewrite Nat.eqb_refl. Qed.
+
+(* into the string: any form; into file i: only asked for member i itself *)
+Definition sink_fits (sink : option nat) (i : nat) : Prop :=
+  match sink with None => True | Some f => f = i end.
+
+Lemma sem_member_noinc : forall fuel sink i k, sink_fits sink i ->
   sem NoInc (ser_member fuel sink i k) = Some (sink_out sink (t_inline i), NoInc).
 Proof.
-  intros fuel sink i k.
+  intros fuel sink i k Hfit.
+  assert (E : sem_cmd NoInc (emit sink (t_inline i)) = Some (sink_out sink (t_inline i), NoInc)).
+  { destruct sink as [f|]; [cbn in Hfit; subst f; apply sem_emit_file_inline | reflexivity]. }
   destruct k; destruct fuel; cbn [ser_member sem]; rewrite ?sem_cmd_IfMode; cbn [branch sem];
-    rewrite sem_emit; now rewrite !app_nil_r.
+    rewrite E; now rewrite !app_nil_r.
 Qed.
 
-Lemma sem_member_allow : forall f sink i k,
-  sem Allow (ser_member (S f) sink i k) = Some (sink_out sink (in_store i k), Allow).
+Lemma sem_member_allow : forall f i k,
+  sem Allow (ser_member (S f) None i k) = Some ([in_store i k], Allow).
 Proof.
-  intros f sink i k. destruct k; cbn [ser_member sem in_store].
-  - rewrite sem_emit. now rewrite !app_nil_r.
-  - rewrite sem_cmd_IfMode. cbn [branch sem]. rewrite sem_emit, sem_cmd_IfChanged.
-    cbn [sem sem_cmd app mode_eqb]. now rewrite !app_nil_r.
-  - rewrite sem_cmd_IfMode. cbn [branch sem]. rewrite sem_emit, sem_cmd_IfChanged.
-    cbn [sem sem_cmd]. rewrite sem_app, sem_member_noinc. cbn [sem sem_cmd sink_out app mode_eqb].
-    now rewrite !app_nil_r.
+  intros f i k. destruct k; cbn [ser_member sem in_store].
+  - reflexivity.
+  - rewrite sem_cmd_IfMode. cbn [branch sem]. rewrite sem_emit_string, sem_cmd_IfChanged.
+    cbn [sem sem_cmd]. rewrite Nat.eqb_refl. cbn [app mode_eqb]. reflexivity.
+  - rewrite sem_cmd_IfMode. cbn [branch sem]. rewrite sem_emit_string, sem_cmd_IfChanged.
+    cbn [sem sem_cmd]. rewrite sem_app, (sem_member_noinc f (Some i) i Json eq_refl).
+    cbn [sem sem_cmd sink_out app mode_eqb]. reflexivity.
 Qed.
 
 Lemma sem_members_allow : forall f mem i,
@@ -440,9 +534,9 @@ Proof.
   intros f mem o. destruct o; cbn [prog spec_out sem sem_cmd].
   - reflexivity.
   - now rewrite sem_members_allow.
-  - rewrite sem_app, sem_member_noinc. cbn [sem sem_cmd sink_out app]. reflexivity.
+  - rewrite sem_app, (sem_member_noinc _ None _ _ I). cbn [sem sem_cmd sink_out app]. reflexivity.
   - now rewrite sem_member_allow.
-  - rewrite sem_app, sem_member_allow. cbn [sem sem_cmd sink_out app]. rewrite ?app_nil_r. reflexivity.
+  - rewrite sem_app, (sem_member_noinc _ None _ _ I). cbn [sem sem_cmd sink_out app]. reflexivity.
 Qed.
 
 Lemma init_thread_at : forall sc i o,
@@ -452,75 +546,91 @@ Proof.
   intros sc i o H. unfold init. cbn [thr]. now rewrite nth_error_map, H.
 Qed.
 
-(* Outside the known class every thread of every scenario obtains, under every schedule,
-   what the specification says it obtains alone. *)
-Theorem scenario_guarded : forall sc sched i o,
+(* The property: every thread of every scenario obtains, under every schedule, what the
+   specification says it obtains alone; what it writes to stand-off files is member content. *)
+Theorem scenario_independent : forall sc sched i o,
   nth_error (ops sc) i = Some o ->
-  Known_C20_mode_write (changed0 sc) (thr (init sc)) i = false ->
-  exists t', nth_error (thr (run sched (init sc))) i = Some t' /\ dead t' = false
+  exists t', nth_error (thr (run false sched (init sc))) i = Some t' /\ dead t' = false /\ files_ok t'
+             /\ (finished t' = true -> out t' = spec_out (members sc) o)
+             /\ exists rest, out t' ++ rest = spec_out (members sc) o.
+Proof.
+  intros sc sched i o Ho.
+  eapply independent_generic with (m1 := Allow).
+  - apply init_thread_at; eauto.
+  - reflexivity.
+  - reflexivity.
+  - reflexivity.
+  - cbn [init_thread stk tmd]. apply sem_prog.
+Qed.
+
+(* Alone, every entry point yields the specified result, whatever the changed flags are. *)
+Theorem scenario_solo : forall sh sc n i o,
+  nth_error (ops sc) i = Some o ->
+  exists t', nth_error (thr (run sh (repeat i n) (init sc))) i = Some t' /\ dead t' = false
+             /\ (finished t' = true -> out t' = spec_out (members sc) o).
+Proof.
+  intros sh sc n i o Ho.
+  destruct (solo_generic sh i n (init sc) (init_thread (prog model_fuel (members sc) o))
+              (spec_out (members sc) o) Allow) as (t' & H1 & H2 & _ & H3 & _); eauto.
+  - apply init_thread_at; eauto.
+  - destruct sh; cbn [init md init_thread stk tmd cur_mode]; apply sem_prog.
+Qed.
+
+(* the shared-cell design, outside the race class *)
+Theorem shared_scenario_guarded : forall sc sched i o,
+  nth_error (ops sc) i = Some o ->
+  Shared_mode_race (changed0 sc) (thr (init sc)) i = false ->
+  exists t', nth_error (thr (run true sched (init sc))) i = Some t' /\ dead t' = false /\ files_ok t'
              /\ (finished t' = true -> out t' = spec_out (members sc) o)
              /\ exists rest, out t' ++ rest = spec_out (members sc) o.
 Proof.
   intros sc sched i o Ho Hk.
-  eapply guarded_generic with (c0 := changed0 sc) (m1 := Allow); eauto.
+  eapply shared_guarded with (c0 := changed0 sc) (m1 := Allow); eauto.
   - apply le_flags_refl.
   - apply init_thread_at; eauto.
   - reflexivity.
   - reflexivity.
-  - cbn [init md init_thread stk]. apply sem_prog.
-Qed.
-
-(* Alone, every entry point yields the specified result, whatever the changed flags are. *)
-Theorem scenario_solo : forall sc n i o,
-  nth_error (ops sc) i = Some o ->
-  exists t', nth_error (thr (run (repeat i n) (init sc))) i = Some t' /\ dead t' = false
-             /\ (finished t' = true -> out t' = spec_out (members sc) o).
-Proof.
-  intros sc n i o Ho.
-  destruct (solo_generic i n (init sc) (init_thread (prog model_fuel (members sc) o))
-              (spec_out (members sc) o) Allow) as (t' & H1 & H2 & H3 & _); eauto.
-  - apply init_thread_at; eauto.
+  - reflexivity.
   - cbn [init md init_thread stk]. apply sem_prog.
 Qed.
 
 (* ---------- the harness granularity is a special case ---------- *)
-Lemma run_app : forall a b st, run (a ++ b) st = run b (run a st).
+Lemma run_app : forall sh a b st, run sh (a ++ b) st = run sh b (run sh a st).
 Proof. intros; unfold run; apply fold_left_app. Qed.
 
-Lemma advance_is_run : forall n i st, exists k, advance n i st = run (repeat i k) st.
+Lemma advance_is_run : forall sh n i st, exists k, advance sh n i st = run sh (repeat i k) st.
 Proof.
   induction n as [|n IH]; intros i st; cbn [advance].
   - exists 0. reflexivity.
   - destruct (nth_error (thr st) i) as [t|]; [|exists 0; reflexivity].
     destruct (stk t) as [|c s]; [exists 0; reflexivity|].
     destruct (is_local c); [|exists 0; reflexivity].
-    destruct (IH i (step i st)) as [k Hk]. exists (S k). rewrite Hk. reflexivity.
+    destruct (IH i (step sh i st)) as [k Hk]. exists (S k). rewrite Hk. reflexivity.
 Qed.
 
-Theorem run_coarse_is_run : forall cs st, exists fs, run_coarse cs st = run fs st.
+Theorem run_coarse_is_run : forall sh cs st, exists fs, run_coarse sh cs st = run sh fs st.
 Proof.
   induction cs as [|i cs IH]; intros st.
   - exists []. reflexivity.
-  - cbn [run_coarse fold_left]. fold (run_coarse cs (cstep i st)).
-    destruct (IH (cstep i st)) as [fs Hfs]. unfold cstep in *.
-    destruct (advance_is_run (stack_len i (step i st)) i (step i st)) as [k Hk].
+  - cbn [run_coarse fold_left]. fold (run_coarse sh cs (cstep sh i st)).
+    destruct (IH (cstep sh i st)) as [fs Hfs]. unfold cstep in *.
+    destruct (advance_is_run sh (stack_len i (step sh i st)) i (step sh i st)) as [k Hk].
     exists ((i :: repeat i k) ++ fs). rewrite run_app. cbn [run fold_left].
-    fold (run (repeat i k) (step i st)). rewrite <- Hk. exact Hfs.
+    fold (run sh (repeat i k) (step sh i st)). rewrite <- Hk. exact Hfs.
 Qed.
 
-Corollary scenario_guarded_coarse : forall sc cs i o t',
+Corollary scenario_independent_coarse : forall sc cs i o t',
   nth_error (ops sc) i = Some o ->
-  Known_C20_mode_write (changed0 sc) (thr (init sc)) i = false ->
-  nth_error (thr (run_coarse cs (init sc))) i = Some t' -> finished t' = true ->
-  out t' = spec_out (members sc) o /\ dead t' = false.
+  nth_error (thr (run_coarse false cs (init sc))) i = Some t' ->
+  files_ok t' /\ dead t' = false /\ (finished t' = true -> out t' = spec_out (members sc) o).
 Proof.
-  intros sc cs i o t' Ho Hk Hn Hf.
-  destruct (run_coarse_is_run cs (init sc)) as [fs E]. rewrite E in Hn.
-  destruct (scenario_guarded sc fs i o Ho Hk) as (t2 & H1 & H2 & H3 & _).
+  intros sc cs i o t' Ho Hn.
+  destruct (run_coarse_is_run false cs (init sc)) as [fs E]. rewrite E in Hn.
+  destruct (scenario_independent sc fs i o Ho) as (t2 & H1 & H2 & H3 & H4 & _).
   rewrite Hn in H1. injection H1 as <-. auto.
 Qed.
 
-(* ---------- inside the class the property fails ---------- *)
+(* ---------- with the shared cell the property fails ---------- *)
 Definition result (i : nat) (st : state) : option (bool * list tok) :=
   option_map (fun t => (finished t, out t)) (nth_error (thr st) i).
 
@@ -532,10 +642,10 @@ Definition file_writes (i : nat) (st : state) : list (nat * tok) :=
    start and A's read of the mode: A writes the dataset inline instead of {"@include"}. *)
 Definition witness_AB : scen := mkScen [Json] [false] [OpStore; OpMemberTrait 0].
 
-Lemma refuted_store_loses_include :
-  result 0 (run_coarse [0; 1; 1; 0] (init witness_AB)) = Some (true, [t_inline 0])
+Lemma shared_refuted_store_loses_include :
+  result 0 (run_coarse true [0; 1; 1; 0] (init witness_AB)) = Some (true, [t_inline 0])
   /\ spec_out (members witness_AB) OpStore = [t_include 0]
-  /\ Known_C20_mode_write (changed0 witness_AB) (thr (init witness_AB)) 0 = true.
+  /\ Shared_mode_race (changed0 witness_AB) (thr (init witness_AB)) 0 = true.
 Proof. vm_compute. repeat split. Qed.
 
 (* the other direction: B asks for the content of the stand-off file; A (flushing the changed
@@ -543,8 +653,8 @@ Proof. vm_compute. repeat split. Qed.
    SetMode NoInc and B's read: B receives {"@include"} *)
 Definition witness_BA : scen := mkScen [Json] [true] [OpMemberTrait 0; OpStore].
 
-Lemma refuted_member_gets_include :
-  result 0 (run_coarse [1; 1; 1; 0; 0; 1; 1; 1; 1; 0; 0; 0] (init witness_BA)) = Some (true, [t_include 0])
+Lemma shared_refuted_member_gets_include :
+  result 0 (run_coarse true [1; 1; 1; 0; 0; 1; 1; 1; 1; 0; 0; 0] (init witness_BA)) = Some (true, [t_include 0])
   /\ spec_out (members witness_BA) (OpMemberTrait 0) = [t_inline 0].
 Proof. vm_compute. repeat split. Qed.
 
@@ -552,24 +662,32 @@ Proof. vm_compute. repeat split. Qed.
    one of them switches the mode under the other, which then writes everything inline *)
 Definition witness_SS : scen := mkScen [Json; Json] [true; false] [OpStore; OpStore].
 
-Lemma refuted_two_store_serialisations :
-  result 1 (run_coarse [0; 0; 0; 0; 1; 1; 1] (init witness_SS)) = Some (true, [t_inline 0; t_inline 1])
+Lemma shared_refuted_two_store_serialisations :
+  result 1 (run_coarse true [0; 0; 0; 0; 1; 1; 1] (init witness_SS)) = Some (true, [t_inline 0; t_inline 1])
   /\ spec_out (members witness_SS) OpStore = [t_include 0; t_include 1].
 Proof. vm_compute. repeat split. Qed.
 
 (* and the stand-off file itself can receive {"@include": itself}: B's closing SetMode Allow
    lands between A's SetMode NoInc and A's serialisation into the file *)
-Lemma refuted_file_gets_include :
-  In (0, t_include 0) (file_writes 1 (run_coarse [1; 1; 1; 0; 0; 0; 1; 0; 1] (init witness_BA))).
+Lemma shared_refuted_file_gets_include :
+  In (0, t_include 0) (file_writes 1 (run_coarse true [1; 1; 1; 0; 0; 0; 1; 0; 1] (init witness_BA))).
 Proof. vm_compute. auto. Qed.
 
-Theorem C20_refuted_generic :
+Theorem shared_refuted_generic :
   exists sc cs i o t', nth_error (ops sc) i = Some o
-    /\ nth_error (thr (run_coarse cs (init sc))) i = Some t' /\ finished t' = true
+    /\ nth_error (thr (run_coarse true cs (init sc))) i = Some t' /\ finished t' = true
     /\ out t' <> spec_out (members sc) o.
 Proof.
   exists witness_AB, [0; 1; 1; 0], 0, OpStore.
-  exists (mkT [] [t_inline 0] [] false).
+  exists (mkT [] Allow [t_inline 0] [] false).
   split; [reflexivity|]. split; [vm_compute; reflexivity|]. split; [reflexivity|].
   vm_compute. discriminate.
 Qed.
+
+(* the same scenarios and schedules with the mode confined to the thread *)
+Lemma local_witnesses_fine :
+  result 0 (run_coarse false [0; 1; 1; 0; 0] (init witness_AB)) = Some (true, [t_include 0])
+  /\ result 0 (run_coarse false [1; 1; 1; 0; 0; 1; 1; 1; 1; 0; 0; 0] (init witness_BA)) = Some (true, [t_inline 0])
+  /\ result 1 (run_coarse false [0; 0; 0; 0; 0; 0; 0; 0; 1; 1; 1; 1; 1] (init witness_SS)) = Some (true, [t_include 0; t_include 1])
+  /\ file_writes 1 (run_coarse false [1; 1; 1; 0; 0; 0; 1; 0; 1; 1; 1; 1] (init witness_BA)) = [(0, t_inline 0)].
+Proof. vm_compute. repeat split. Qed.
